@@ -15,6 +15,13 @@ use std::time::{Duration, UNIX_EPOCH};
 #[cfg(not(rre_verif))]
 use std::time::{Duration, SystemTime, UNIX_EPOCH};
 
+/// A window duration in whole milliseconds, saturating: `as_millis() as u64` truncated a
+/// duration of 2^64 ms or more (`Duration::MAX` as "no bound") to a small value, so that an
+/// unbounded window rejected and evicted nearly everything.
+fn saturating_millis(duration: &Duration) -> u64 {
+    u64::try_from(duration.as_millis()).unwrap_or(u64::MAX)
+}
+
 /// StreamAlphaNode filters events from a named stream
 ///
 /// This node:
@@ -181,7 +188,7 @@ impl StreamAlphaNode {
             None => true,
             Some(spec) => {
                 let current_time = Self::current_time_ms();
-                let window_duration_ms = spec.duration.as_millis() as u64;
+                let window_duration_ms = saturating_millis(&spec.duration);
 
                 match spec.window_type {
                     WindowType::Sliding => {
@@ -228,7 +235,7 @@ impl StreamAlphaNode {
     fn evict_expired_events(&mut self) {
         if let Some(spec) = &self.window {
             let current_time = Self::current_time_ms();
-            let window_duration_ms = spec.duration.as_millis() as u64;
+            let window_duration_ms = saturating_millis(&spec.duration);
 
             match spec.window_type {
                 WindowType::Sliding => {
@@ -312,7 +319,7 @@ impl StreamAlphaNode {
             event_count: self.events.len(),
             oldest_event_timestamp: self.events.front().map(|e| e.metadata.timestamp),
             newest_event_timestamp: self.events.back().map(|e| e.metadata.timestamp),
-            window_duration_ms: self.window.as_ref().map(|w| w.duration.as_millis() as u64),
+            window_duration_ms: self.window.as_ref().map(|w| saturating_millis(&w.duration)),
         }
     }
 }
